@@ -43,7 +43,7 @@ from krrood.adapters.json_serializer import (  # noqa: E402
 )
 
 PID = "C18"
-LEAN_MODULES = ["KrroodVerif.Props.C18"]
+LEAN_MODULES = ["KrroodVerif.Props.C18", "KrroodVerif.Props.C18Tables"]
 THEOREMS = [
     "KrroodVerif.Json.C18_roundtrip",
     "KrroodVerif.Json.C18_tag",
@@ -53,7 +53,64 @@ THEOREMS = [
     "KrroodVerif.Json.C18_history",
     "KrroodVerif.Json.C18_registered_wf",
     "KrroodVerif.Json.serializable_of_wf",
+    "KrroodVerif.Json.C18_toJson_eq_interp",
+    "KrroodVerif.Json.C18_fromJson_eq_interp",
+    "KrroodVerif.Json.C18_interp_of_dispatch_eq",
+    "KrroodVerif.Json.C18_roundtrips_of_wellformed",
+    "KrroodVerif.Json.C18_of_dispatch_eq",
+    "KrroodVerif.Json.C18_builtin_pair_inverse",
+    "KrroodVerif.Json.tables_roundTrips",
 ]
+
+
+def extra_obligations():
+    """Second tie: regenerate the dispatch tables of `to_json` / `from_json`, the tag composition, the tag-resolution
+    stages and the registry lookup rule from /repo's CURRENT source (Python ast) and have the kernel re-check that they
+    decide every kind of value like the model's tables (`Json.tables`, for which C18_toJson_eq_interp / C18_fromJson_eq_interp
+    prove that the table interpreters ARE `toJson` / `fromJson`) and that they satisfy `RoundTrips`."""
+    import os
+    import subprocess
+    import core
+    from translate import c18_translate as T
+    names = [f"{T.NAMESPACE}.{n}" for n in T.OBLIGATIONS]
+    try:
+        text = T.generate(core.REPO)
+    except (T.TranslationError, SyntaxError, OSError, RecursionError) as e:
+        return [{"name": n, "ok": False, "detail": f"translator rejected the source: {e}"} for n in names]
+    tmp = core.LEAN_DIR / ".lake" / "audit"
+    tmp.mkdir(parents=True, exist_ok=True)
+    table = text[text.find("def tables"):text.find("/-- the current source decides")]
+    res = []
+    # the two `decide` obligations are checked separately (one failing must not hide the other); the two consequences
+    # are checked with them
+    for variant, keep in (("eq", [0, 3]), ("wf", [1, 2])):
+        body = text
+        drop = [n for i, n in enumerate(T.OBLIGATIONS) if i not in keep]
+        for n in drop:  # cut the theorem `n` (from its doc comment to the next doc comment / end)
+            i = body.find(f"theorem {n} ")
+            i = body.rfind("/--", 0, i)
+            j = body.find("/--", body.find(f"theorem {n} "))
+            j = j if j != -1 else body.find(f"end {T.NAMESPACE}")
+            body = body[:i] + body[j:]
+        f = tmp / f"C18Translated_{variant}_{os.getpid()}.lean"
+        mine = [names[i] for i in keep]
+        f.write_text(body + "".join(f"#print axioms {n}\n" for n in mine))
+        try:
+            p = subprocess.run(["lake", "env", "lean", str(f)], cwd=str(core.LEAN_DIR), capture_output=True, text=True, timeout=600)
+        finally:
+            try:
+                f.unlink()
+            except OSError:
+                pass
+        out = " ".join(((p.stdout or "") + (p.stderr or "")).split())
+        for n in mine:
+            m = re.search(r"'" + re.escape(n) + r"' depends on axioms: \[([^\]]*)\]", out)
+            none = re.search(r"'" + re.escape(n) + r"' does not depend on any axioms", out)
+            ax = [a.strip() for a in m.group(1).split(",")] if m else ([] if none else None)
+            ok = p.returncode == 0 and ax is not None and set(ax) <= core.ALLOWED_AXIOMS
+            res.append({"name": n, "ok": ok, "axioms": ax,
+                        "detail": "regenerated tables:\n" + table + (p.stdout or "")[-1500:] + (p.stderr or "")[-800:]})
+    return res
 MODEL_FUNCTION = "Json.toJson / Json.fromJson / Json.resolve / Json.wf / Json.expand / Json.stepOp (Model/Json.lean)"
 TRUSTED = [
     "Lean 4.33 kernel; axioms of each theorem listed under coverage.theorems",
@@ -72,11 +129,14 @@ ASSUMPTIONS = [
     "the registry only grows or replaces (there is no API to forget a type)",
 ]
 RULE = ("corpus, then a fixed family (every leaf, every class empty / holding every leaf kind, list nestings to depth 6, "
-        "every registered type, every class in one list, classes sharing one __name__ across three modules side by side / "
+        "every registered type, every class in one list, string leaves whose content is JSON text (documents of every JSON type, "
+        "with/without surrounding blanks, compact/indented, the dumped form of every class of the zoo, near misses) at top level / "
+        "as list element / as field value / as registered payload, classes sharing one __name__ across three modules side by side / "
         "nested in every order, DAG-shaped values in which one list / one object is referenced from several places, registry "
         "histories: failed attempt -> register -> round trip, register -> serialise -> re-register under another encoding -> "
         "round trip, stored documents read before/after a registration, two types interleaved), then random values of "
-        "depth <= 5 (quick) / 7 (thorough) over the harness class zoo — one position in eight re-uses an already built list or "
+        "depth <= 5 (quick) / 7 (thorough) over the harness class zoo — strings are arbitrary text INCLUDING (3 in 10) JSON text: "
+        "the dumped reference serialisation of another value of the same case or of a fresh one, at every depth — one position in eight re-uses an already built list or "
         "object (same id()) — and, one case in six, a random registry history of 2..7 operations on brand-new third-party "
         "classes; every case goes through real JSON text; non-trivial = the value contains at least one object or a list "
         "nested in a list; distinct by case text")
@@ -771,8 +831,11 @@ def probe_attr(m: str, n: str) -> str:
         ser = issubclass(obj, SubclassJSONSerializer)
         try:
             reg = obj in JSONSerializableTypeRegistry()._deserializers
-        except TypeError:
+        except Exception:  # noqa: BLE001
             reg = False
+        # ground truth is the harness's own record of the `register` calls made so far (uuid.UUID: by krrood itself on
+        # import), not only what the registry under test remembers of them
+        reg = reg or obj in EXT or obj is globals().get("RegisteredNode")
         impl = implements_from_json(obj) if ser else True  # only meaningful for serializer classes
         return f"(cls {enc_cls(obj)} {'T' if ser else 'F'} {'T' if reg else 'F'} {'T' if impl else 'F'})"
     if isinstance(obj, types.ModuleType):
@@ -867,8 +930,63 @@ STRS = ["", "a", "Rex", "ü", "\x00", "\U0001F600", "\ud800", "a\x00b\U0001F600"
         '"', "\\", "\n\t", "null", "x" * 300, " ", "é́", " "]
 FIELD_NAMES = ["a", "b", "x", "value", "fields", "type", "name", "_p", "k9", "data", "cls", "kwargs", "json"]
 
+# strings whose CONTENT is itself JSON text (a string leaf is opaque: it must come back as the same `str`, whatever it
+# spells) — complete documents of every JSON type, with and without surrounding blanks, compact and indented, the
+# serialised form of objects of the zoo (a string field that carries a dumped document), JSON text of JSON text,
+# and near misses (incomplete documents, python reprs)
+JSON_TEXTS = [
+    "[]", "{}", "null", "true", "false", "0", "1", "-1", "1.5", "1e3", "-0.0", "NaN", "Infinity", '""', '"a"', '"[]"',
+    " []", "[] ", " [] ", "\n[]\n", "\t{}", " {} ", "  null ", " true", "false ", " 12 ", "\r\n[1]\r\n",
+    "[1, 2, 3]", "[1,2,3]", '["a", "b"]', "[[]]", "[[], []]", "[null]", "[true, false]", "[{}]", '[""]', "[1.5, -2]",
+    '{"a": 1}', '{"a":1}', '{"a": []}', '{"a": {"b": null}}', "{\n \"a\": 1\n}", '{"value": "p"}',
+    '{"__json_type__": "props.c18.Node"}', '{"__json_type__": "props.c18.NodeA", "a": 1}',
+    ' {"__json_type__": "props.c18.Node", "a": [1, "x"]} ',
+    '{"__json_type__": "uuid.UUID", "value": "12345678-1234-5678-1234-567812345678"}',
+    '{"__json_type__": "props.c18.Money", "value": "p"}', '[{"__json_type__": "props.c18.Node"}]',
+    '{"__json_type__": "no.such.module.X"}', '{"__json_type__": "props.c18.NotSerializable"}', '{"__json_type__": 5}',
+    '"{\\"a\\": 1}"', '"[1, 2]"',
+    "[", "{", "]", "}", "[1, 2", '{"a": ', "[draft] chapter one", "{name}", "[1, 2,]", "{'a': 1}", "[None]", "[True]",
+    "(1, 2)", "[] []", "[]x", "x[]", "{} // c", "\ufeff[]", "\u00a0[]", "b'[]'",
+]
 
-def gen_leaf(rng, extra=()):
+
+def ref_json(v):
+    """the JSON tree the property's convention prescribes for a value — written by the harness itself (the generator
+    never calls the code under test)"""
+    t = type(v)
+    if t is list:
+        return [ref_json(x) for x in v]
+    if is_ext(t):
+        return {KEY: t.__module__ + "." + t.__name__, "value": ext_payload(v)}
+    if t in SER_CLASSES:
+        d = {KEY: t.__module__ + "." + t.__name__}
+        for k, x in fields_of(v).items():
+            d[k] = ref_json(x)
+        return d
+    return v
+
+
+def gen_json_text(rng, pool=None, extra=()) -> str:
+    """a string whose content is JSON text: a fixed document, or the dumped form of ANOTHER generated value (one already
+    built for this case, or a fresh small one) — compact / default / indented, with or without surrounding blanks, or
+    dumped twice (JSON text of JSON text)"""
+    r = rng.random()
+    if r < 0.4:
+        return rng.choice(JSON_TEXTS)
+    src = rng.choice(pool) if pool and rng.random() < 0.5 else gen_value(rng, rng.randrange(0, 3), None, extra, 0.0, 0.0)
+    try:
+        kw = rng.choice([{}, {}, {"separators": (",", ":")}, {"indent": 1}, {"ensure_ascii": False}, {"sort_keys": True}])
+        text = json.dumps(ref_json(src), **kw)
+    except (TypeError, ValueError, RecursionError):
+        text = "[]"
+    if rng.random() < 0.15:
+        text = json.dumps(text)
+    if rng.random() < 0.35:
+        text = rng.choice(["", " ", "\n", "  ", "\t"]) + text + rng.choice(["", " ", "\n", " \n"])
+    return text
+
+
+def gen_leaf(rng, extra=(), pool=None, jtext: float = 0.3):
     k = rng.randrange(9)
     if k == 0:
         return None
@@ -879,6 +997,8 @@ def gen_leaf(rng, extra=()):
     if k in (4, 5):
         return rng.choice(FLOATS) if rng.random() < 0.6 else rng.uniform(-1e6, 1e6)
     if k in (6, 7):
+        if rng.random() < jtext:
+            return gen_json_text(rng, pool, extra)
         if rng.random() < 0.6:
             return rng.choice(STRS)
         return "".join(chr(rng.choice([rng.randrange(32, 127), rng.randrange(0xA0, 0x800), rng.randrange(0x10000, 0x10400)]))
@@ -899,28 +1019,28 @@ def gen_ext(rng):
     return rng.choice(EXT_MONEY[1:])(rng.choice(["", "12.50 EUR", "ü"]))
 
 
-def gen_value(rng, depth: int, pool: Optional[list] = None, extra=(), share: float = 0.12):
+def gen_value(rng, depth: int, pool: Optional[list] = None, extra=(), share: float = 0.12, jtext: float = 0.3):
     """a value of the grammar; `pool` collects the lists / objects built so far so that a later position may reference
     one of them AGAIN (the same Python object: a DAG, never a cycle — only finished values are in the pool)"""
     pool = [] if pool is None else pool
     if pool and rng.random() < share:
         return rng.choice(pool)
     if depth <= 0 or rng.random() < 0.25:
-        return gen_leaf(rng, extra)
+        return gen_leaf(rng, extra, pool, jtext)
     r = rng.random()
     if r < 0.4:
         n = rng.choice([0, 1, 1, 2, 2, 3, 4])
         if n and rng.random() < 0.08:  # the `[x] * n` idiom
-            v = [gen_value(rng, depth - 1, pool, extra, share)] * n
+            v = [gen_value(rng, depth - 1, pool, extra, share, jtext)] * n
         else:
-            v = [gen_value(rng, depth - 1, pool, extra, share) for _ in range(n)]
+            v = [gen_value(rng, depth - 1, pool, extra, share, jtext) for _ in range(n)]
         pool.append(v)
         return v
     cls = rng.choice(SER_CLASSES)
     names = schema(cls)
     if names is None:
         names = rng.sample(FIELD_NAMES, rng.choice([0, 1, 1, 2, 2, 3]))
-    v = cls(**{k: gen_value(rng, depth - 1, pool, extra, share) for k in names})
+    v = cls(**{k: gen_value(rng, depth - 1, pool, extra, share, jtext) for k in names})
     pool.append(v)
     return v
 
@@ -983,6 +1103,30 @@ def fixed_family() -> List[Case]:
     out += same_name_family()
     out += shared_family()
     out += history_family()
+    out += json_text_family()
+    return out
+
+
+def json_text_family() -> List[Case]:
+    """string leaves whose content is JSON text, at every kind of position: top level, list element, nested list element,
+    field of a generic / dataclass-style object, field of an object inside a list inside an object, payload of a
+    registered type; and the dumped form of every class of the zoo carried as a string"""
+    out = []
+    tag = ("json-text-string",)
+    for i, t in enumerate(JSON_TEXTS):
+        out.append(make_case(t, tag, "exhaustive"))
+        out.append(make_case([t], tag, "exhaustive"))
+        out.append(make_case(GENERIC[i % len(GENERIC)](a=t), tag, "exhaustive"))
+        if i % 3 == 0:
+            out.append(make_case([[0, [t, None]], t], tag, "exhaustive"))
+            out.append(make_case(Dog(t, 3, [t]), tag, "exhaustive"))
+            out.append(make_case(Node(a=[Cat("c", t, NodeB(x=t))], b=Money(t)), tag, "exhaustive"))
+    samples = [_inst(c, [1, "s"]) for c in SER_CLASSES] + [uuid.UUID(int=7), Fraction(1, 3), Money("m"), [], [[]], [None, True, 1.5, "x"]]
+    for i, v in enumerate(samples):
+        for text in (json.dumps(ref_json(v)), " " + json.dumps(ref_json(v), separators=(",", ":")), json.dumps(ref_json(v), indent=1) + "\n"):
+            out.append(make_case(text, tag, "exhaustive"))
+            out.append(make_case([v, text], tag, "exhaustive"))
+            out.append(make_case(NodeA(a=text, b=v), tag, "exhaustive"))
     return out
 
 
